@@ -10,6 +10,7 @@ from repid.connections.redis.utils import (
     get_priorities_order,
     get_queue_marker,
     mnc,
+    parse_message_name,
     parse_short_message_name,
     qnc,
     unix_time,
@@ -226,6 +227,24 @@ class _RedisConsumer(ConsumerT):
             self.__mark_processing(msg_short_name, full_queue_name, pipe)
             try:
                 await pipe.execute()
+            except asyncio.CancelledError:
+                # the consumer is being finished while the transaction is on its way: the server
+                # may have executed it already, and nobody else knows about the message yet -
+                # hand it back (nothing happens if it wasn't taken)
+                id_, topic, queue, priority = parse_message_name(
+                    full_message_name_from_short(msg_short_name, full_queue_name),
+                )
+                await asyncio.shield(
+                    self.broker.reject(
+                        self.broker.ROUTING_KEY_CLASS(
+                            id_=id_,
+                            topic=topic,
+                            queue=queue,
+                            priority=priority,
+                        ),
+                    ),
+                )
+                raise
             except Exception:  # pragma: no cover  # noqa: BLE001
                 return None
         return msg_short_name
